@@ -1,5 +1,5 @@
 import QR.Proofs.Raster
-import QR.Proofs.SourceTie
+import QR.Proofs.SourceTieC12
 import QR.Proofs.Pinned
 /-
 C12 - raster geometry (image/base.py, pure.py, pil.py).  Both raster back ends produce a square of
